@@ -35,7 +35,7 @@ func RunPlan(r *mc.Run, prop string, plan []Search) {
 	var rows []map[string]any
 	union := map[string]map[string]bool{} // world -> distinct state keys over all searches
 	var transitions int64
-	var rejected, halted int64
+	var notContinued int64
 	deepest := map[string]int{}
 	for _, s := range plan {
 		if r.Expired() {
@@ -68,13 +68,13 @@ func RunPlan(r *mc.Run, prop string, plan []Search) {
 			},
 			OnState: func(path []int, res *mc.ExecResult) {
 				u[res.Key] = true
-				if len(path) == s.Depth && len(infoSamples) < 2 && strings.Contains(res.Info, "slash") {
+				if len(path) == s.Depth && len(infoSamples) < 2 && strings.Contains(res.Info, "slash ") {
 					infoSamples = append(infoSamples, fmt.Sprintf("%v => %s", names(alpha, path), res.Info))
 				}
 			},
 		})
 		transitions += st.Transitions
-		rejected += st.Disabled
+		notContinued += st.Disabled
 		if !st.Complete {
 			r.Exhaustive = false
 		}
@@ -93,7 +93,6 @@ func RunPlan(r *mc.Run, prop string, plan []Search) {
 		fmt.Printf("%s world=%s alphabet=%s(%d) depth=%d/%d states=%d transitions=%d new-per-depth=%v rejected/halted=%d complete=%v\n",
 			prop, s.World, s.Alpha, len(alpha), st.DepthDone, s.Depth, st.States, st.Transitions, st.Frontier, st.Disabled, st.Complete)
 	}
-	_ = halted
 	states := 0
 	perWorld := map[string]int{}
 	for w, u := range union {
@@ -109,11 +108,15 @@ func RunPlan(r *mc.Run, prop string, plan []Search) {
 	}
 	cov := map[string]any{
 		"states": states, "transitions": transitions, "traces_validated_against_impl": int(transitions),
-		"explanation":            "a state is a distinct (full raw state, height, double-signer index) reached by some recipe sequence; a transition is one execution of a whole path on a fresh real store+FSM followed by the oracle on its last block; searches over the same world share their shallow levels, distinct states are counted once per world",
+		"explanation":               "a state is a distinct (full raw state, height, double-signer index) reached by some recipe sequence; a transition is one execution of a whole path on a fresh real store+FSM followed by the oracle on its last block; searches over the same world share their shallow levels, distinct states are counted once per world",
 		"distinct_states_per_world": perWorld,
-		"searches":               rows,
-		"depth_completed":        deepest,
-		"recipes":                rn,
+		"searches":                  rows,
+		"paths_not_continued":       notContinued,
+		"paths_not_continued_means": "the last block of the path could not be applied (reported as a wedge by C12, only counted by C04), the recorded total passed 2^64 (C04, reported), or the harness could not certify a block because the signing validators hold no 2/3 majority / the committee is empty (no violation)",
+		"depth_completed":           deepest,
+		"recipes":                   rn,
+		"oracle":                    oracleText(prop),
+		"not_covered":               notCovered,
 	}
 	r.Finish(cov)
 }
@@ -166,4 +169,29 @@ func lastTrace(res mc.ExecResult) ([]string, bool) {
 		}
 	}
 	return nil, false
+}
+
+func oracleText(prop string) []string {
+	if prop == "C04" {
+		return []string{
+			"after the last block of every path, on a raw scan of the whole state: sum(accounts)+sum(pools)+sum(validator stakes) in big-int arithmetic == Supply.Total; no single amount > Supply.Total",
+			"Supply.Total(after) - Supply.Total(before) == mint(height) + included DAO transfers with mint=true + faucet top-ups - slash burns - undistributed reward remainder, predicted by the reference ledger (chainops/ref.go) from the pre-state, the node's mint schedule, the previous certificate built by the harness and the transactions that were included",
+			"the delta oracle is EXACT for every recipe of the alphabet; no recipe falls back to the weaker bound (mint - burns <= delta <= mint)",
+		}
+	}
+	return []string{
+		"after the last block of every path and after every block of the forward probe, on a raw scan: Supply.Staked, DelegatedOnly, CommitteeStaked[], CommitteeDelegatedOnly[] == sums over the validator records (no duplicate or zero-sum mismatch per committee id)",
+		"every key under the unstaking prefix (5) names an existing validator whose UnstakingHeight is exactly the key's height, and every validator with UnstakingHeight != 0 has exactly that key; same for the paused prefix (6) and MaxPausedHeight; legacy committee/delegate index keys are not part of the oracle",
+		"no wedge: from the state after every path, empty blocks are applied for every height up to 1 + the largest pending deferred height (unstaking markers, paused markers + the unstaking they start, end of the running non-sign window + the unstaking a slash may start), re-evaluated after every block, at most 8 blocks; a block the FSM refuses is a violation",
+	}
+}
+
+var notCovered = []string{
+	"nested-chain certificate results submitted as transactions (MessageCertificateResults), committee retirement, checkpoints",
+	"DEX batch settlement (HandleDexBatch / remote batches / liveness fallback): only the three DEX messages themselves are applied",
+	"order reset instructions; orders on other books than the own chain's",
+	"RLP / nonce-based transactions, plugins, non-BLS signers (authorization and replay are C05/C06)",
+	"committee size caps, more than one validator leaving the committee at once such that the committee becomes empty (the path ends there)",
+	"the controller level: mempool, proposal validation, bft evidence collection (the harness builds certificates directly)",
+	"governance parameters other than minimum stakes, max committees and the DAO percentage",
 }
